@@ -323,8 +323,19 @@ func checkC12(e *core.Env) {
 	e.Cases("inproc", e.N(400, 10000), func(i int, r *rand.Rand) {
 		rs := genRegSet(r)
 		ch := &inprocgrpc.Channel{}
-		for _, d := range rs.descs {
-			decorated(ch, r.Intn(4)).RegisterService(d, &svcObj{d.ServiceName})
+		if r.Intn(3) == 0 {
+			// bulk registration: the services are collected in a HandlerMap and copied to the channel with
+			// reg.ForEach(ch.RegisterService), as the package documentation shows
+			reg := grpchan.HandlerMap{}
+			for _, d := range rs.descs {
+				decorated(reg, r.Intn(4)).RegisterService(d, &svcObj{d.ServiceName})
+			}
+			reg.ForEach(ch.RegisterService)
+			e.Count("bulk_registrations", 1)
+		} else {
+			for _, d := range rs.descs {
+				decorated(ch, r.Intn(4)).RegisterService(d, &svcObj{d.ServiceName})
+			}
 		}
 		rs.registerRefused(ch)
 		for k := 0; k < 20; k++ {
@@ -386,6 +397,16 @@ func checkC12(e *core.Env) {
 		} else {
 			s := httpgrpc.NewServer(httpgrpc.WithBasePath(base))
 			if pan := guard(func() {
+				if r.Intn(3) == 0 {
+					// collected in a HandlerMap first, then copied to the server with ForEach
+					reg := grpchan.HandlerMap{}
+					for _, d := range rs.descs {
+						decorated(reg, r.Intn(4)).RegisterService(d, &svcObj{d.ServiceName})
+					}
+					reg.ForEach(s.RegisterService)
+					e.Count("bulk_registrations", 1)
+					return
+				}
 				for _, d := range rs.descs {
 					decorated(s, r.Intn(4)).RegisterService(d, &svcObj{d.ServiceName})
 				}
